@@ -225,10 +225,10 @@ Definition pview (p : pfs) (l : loss) : dir :=
          (fst ki, nth_clamped (nth (snd ki) (p_inodes p) []) (l_data l (snd ki)) FEmpty))
       (nth_clamped (p_ns p) (l_dir l) []).
 
-Definition loss_none : loss := mkLoss 1000000 (fun _ => 1000000).   (* everything survived = kill *)
-Definition loss_all : loss := mkLoss 0 (fun _ => 0).               (* only what was synced *)
-Definition loss_data : loss := mkLoss 1000000 (fun _ => 0).         (* directory kept, un-synced bytes lost *)
-Definition loss_dir : loss := mkLoss 0 (fun _ => 1000000).          (* un-synced directory changes lost *)
+Definition loss_none : loss := mkLoss 1000%nat (fun _ => 1000%nat).   (* everything survived = kill *)
+Definition loss_all : loss := mkLoss 0%nat (fun _ => 0%nat).               (* only what was synced *)
+Definition loss_data : loss := mkLoss 1000%nat (fun _ => 0%nat).         (* directory kept, un-synced bytes lost *)
+Definition loss_dir : loss := mkLoss 0%nat (fun _ => 1000%nat).          (* un-synced directory changes lost *)
 
 (* power loss before effect n of the whole run (effects of start-up + all operations), FsAlways *)
 Fixpoint all_effs (c : cfg) (s : state) (ops : list op) : list eff :=
